@@ -217,12 +217,13 @@ struct Rewriter {
     ctx: Ctx,
     current_let: Option<String>,
     unsupported: Vec<String>,
+    interfere: bool,
 }
 const CELL_OPS: &[&str] = &["load", "store", "fetch_add", "fetch_sub", "swap", "compare_exchange", "compare_exchange_weak", "fetch_or", "fetch_and", "fetch_max", "fetch_min", "load_full"];
 
 impl Rewriter {
     fn new(labels_in: Option<Vec<String>>) -> Self {
-        Rewriter { labels_in, guesses: vec![], next_idx: 0, out: vec![], ctx: Ctx::default(), current_let: None, unsupported: vec![] }
+        Rewriter { labels_in, guesses: vec![], next_idx: 0, out: vec![], ctx: Ctx::default(), current_let: None, unsupported: vec![], interfere: false }
     }
     fn is_guard(&self, name: &str) -> bool {
         for s in self.ctx.scopes.iter().rev() {
@@ -254,6 +255,9 @@ impl Rewriter {
         self.visit_block_mut(&mut blk);
         let mut h = Hoister { n: 0, unsupported: vec![] };
         h.block(&mut blk);
+        if self.interfere {
+            Interferer.visit_block_mut(&mut blk);
+        }
         self.unsupported.extend(h.unsupported.into_iter().map(|u| format!("{}: {}", label, u)));
         let ctx = std::mem::replace(&mut self.ctx, saved);
         self.current_let = saved_let;
@@ -534,6 +538,25 @@ impl VisitMut for Rewriter {
                 StripArcDeref { name: p.clone() }.visit_expr_mut(&mut body);
                 self.visit_expr_mut(&mut body);
                 *e = parse_quote! { { let __new = { let #pid = &#recv.load(h); #body }; #recv.store(h, __new); } };
+                return;
+            }
+            // R4f `X.fetch_update(set_order, fetch_order, |p| B)`: one atomic read-modify-write step
+            if m.method == "fetch_update" && m.args.len() == 3 {
+                let mut recv = (*m.receiver).clone();
+                self.visit_expr_mut(&mut recv);
+                let (o1, o2) = (m.args[0].clone(), m.args[1].clone());
+                let clo = match strip_container(&m.args[2]) {
+                    Some(c) => c.clone(),
+                    None => {
+                        self.unsupported.push("fetch_update argument is not a closure".into());
+                        return;
+                    }
+                };
+                let p = clo.inputs.first().and_then(pat_ident).unwrap_or_else(|| "v".into());
+                let pid = format_ident!("{}", p);
+                let mut body = (*clo.body).clone();
+                self.visit_expr_mut(&mut body);
+                *e = parse_quote! { atomic({ let __cell = #recv; let #pid = __cell.load(h, #o2); let __upd = #body; match __upd { Some(__n) => { __cell.store(h, __n, #o1); Ok(#pid) } None => Err(#pid) } }) };
                 return;
             }
             // R8 position(ptr_eq)
@@ -908,6 +931,59 @@ impl Hoister {
     }
 }
 
+// ---------------------------------------------------------------- profile T: interference points
+/// `interfere(h, g, c);` in front of every statement whose own evaluation (not that of its nested
+/// blocks) touches the shared heap: other threads may take any number of atomic steps there.
+struct Interferer;
+fn head_touches_heap(e: &Expr) -> bool {
+    struct V(bool);
+    impl<'ast> Visit<'ast> for V {
+        fn visit_expr(&mut self, e: &'ast Expr) {
+            if self.0 { return; }
+            match e {
+                Expr::Closure(_) | Expr::Async(_) => {}
+                Expr::Call(c) if ts(&c.func) == "atomic" => { self.0 = true; }
+                Expr::Block(_) | Expr::Loop(_) => {}
+                Expr::If(i) => { self.visit_expr(&i.cond); }
+                Expr::Match(m) => { self.visit_expr(&m.expr); }
+                Expr::While(w) => { self.visit_expr(&w.cond); }
+                Expr::ForLoop(f) => { self.visit_expr(&f.expr); }
+                _ => {
+                    if is_h_call(e) { self.0 = true; return; }
+                    syn::visit::visit_expr(self, e);
+                }
+            }
+        }
+    }
+    let mut v = V(false);
+    v.visit_expr(e);
+    v.0
+}
+impl VisitMut for Interferer {
+    fn visit_expr_mut(&mut self, e: &mut Expr) {
+        if let Expr::Call(c) = e {
+            if ts(&c.func) == "atomic" { return; } // one atomic step: no interference inside
+        }
+        visit_mut::visit_expr_mut(self, e);
+    }
+    fn visit_block_mut(&mut self, b: &mut Block) {
+        let mut out = vec![];
+        for mut s in std::mem::take(&mut b.stmts) {
+            let touches = match &s {
+                Stmt::Local(l) => l.init.as_ref().map(|i| head_touches_heap(&i.expr)).unwrap_or(false),
+                Stmt::Expr(e, _) => head_touches_heap(e),
+                _ => false,
+            };
+            self.visit_stmt_mut(&mut s);
+            if touches {
+                out.push(parse_quote! { interfere(h, g, c); });
+            }
+            out.push(s);
+        }
+        b.stmts = out;
+    }
+}
+
 // ---------------------------------------------------------------- locating the operator
 fn find_mod<'a>(items: &'a [Item], name: &str) -> Option<&'a syn::ItemMod> {
     for it in items {
@@ -981,6 +1057,7 @@ fn find_unwrap_body(file: &syn::File, arity: usize) -> Option<Block> {
 
 fn run_pass(body: &Block, labels: Option<Vec<String>>) -> Rewriter {
     let mut rw = Rewriter::new(labels);
+    rw.interfere = std::env::args().any(|a| a == "--interfere=1");
     let stmts = body.stmts.clone();
     let label = rw.lift(vec![], stmts, "fn", "ctor".into());
     let _ = label;
